@@ -788,6 +788,14 @@ FirstDiff(a, b, i) == IF i > Len(a) \/ i > Len(b) THEN i ELSE IF a[i] # b[i] THE
 (* The fingerprint of a wrong literal: whether it is ill-formed (and why) or denotes another value, and the   *)
 (* classes of the expected unit at which things go wrong (the first unit the literal fails to deliver) and of *)
 (* the unit after it - "hexdigit" there is the signature of an escape that swallows its neighbour.            *)
+\* what kind of original it is: the structural fingerprint of the case
+Signature(orig) ==
+  IF \E i \in 1..(Len(orig) - 1) : (orig[i] \in 0..31 \/ orig[i] \in 128..254) /\ IsHex(orig[i + 1])
+    THEN "control or Latin-1 character followed by a hexadecimal digit"
+  ELSE IF \E i \in 1..Len(orig) : orig[i] = 0 THEN "NUL"
+  ELSE IF \E i \in 1..Len(orig) : orig[i] \in {133, 8232, 8233} THEN "line separator"
+  ELSE IF \E i \in 1..Len(orig) : orig[i] < 32 THEN "control character"
+  ELSE "other"
 Diagnose(kind, text, orig) ==
   LET d == Decode(kind, text)
       e == Expected(kind, orig)
@@ -798,5 +806,6 @@ Diagnose(kind, text, orig) ==
   IN [ok |-> d.ok, why |-> d.why, val |-> d.val,
       cause |-> IF ~d.ok THEN "ill-formed" ELSE IF d.val = e THEN "none" ELSE "other value",
       at |-> IF j > Len(e) THEN "end" ELSE CharClass(e[j]),
-      next |-> IF j + 1 > Len(e) THEN "end" ELSE IF IsHex(e[j + 1]) THEN "hexdigit" ELSE "other"]
+      next |-> IF j + 1 > Len(e) THEN "end" ELSE IF IsHex(e[j + 1]) THEN "hexdigit" ELSE "other",
+      sig |-> Signature(orig)]
 =============================================================================
